@@ -18,6 +18,7 @@ func checkC13(c *an.Ctx) {
 	c.Rule("C13.2", "the timeout is on every job kind (E4): CompileCommand stores its timeout parameter in Job.Timeout, all its callers pass Task.Timeout, and every Job built on the way from CompileTask carries a Timeout")
 	c.Rule("C13.3", "expiry is fatal (E2): rows 'not an exit status' of the job-walk table (with and without allow_failure) and the hook tables; Execute returns the interpreter's error unchanged, so an expired deadline cannot be taken for an exit status; the interpreter runs programs with the library's default exec handler (option table of C12.5), which reports a program killed at the deadline with the context's error, not with a status")
 	c.Rule("C13.4", "decoding (E5): the one mapstructure decoder has StringToTimeDurationHookFunc among its hooks; taskDefinition.Timeout is *time.Duration and buildTask copies it unchanged")
+	c.Rule("C13.5", "the configured timeout is not rewritten (E4): Task.Timeout is a pointer, which a value copy of the task shares with the original; no store in the module writes through a pointer loaded from a Task.Timeout field — a per-stage override written that way replaces the task's own timeout for every later use of the task")
 	c.NotDecided = append(c.NotDecided, "every timing aspect (how soon the process dies, children ignoring SIGINT, command substitutions swallowing the deadline): all inside mvdan.cc/sh")
 	p := c.P
 	r := resolveRunner(c, "C13.0")
@@ -119,6 +120,35 @@ func checkC13(c *an.Ctx) {
 	// … nor can the interpreter hand it back as one: programs are run by the library's default handler, which
 	// reports a killed program with the context's error (a handler of the module could turn it into a status)
 	interpOptions(c, "C13.3")
+	// C13.5
+	{
+		n, bad := 0, false
+		for _, fn := range p.Funcs {
+			if !an.InModule(fn) {
+				continue
+			}
+			an.EachInstr(fn, func(in ssa.Instruction) {
+				st, ok := in.(*ssa.Store)
+				if !ok {
+					return
+				}
+				n++
+				for _, src := range an.Sources(st.Addr) {
+					u, ok := src.(*ssa.UnOp)
+					if !ok || u.Op != token.MUL {
+						continue
+					}
+					if fa, ok := u.X.(*ssa.FieldAddr); ok && an.TypeField(fa) == "Task.Timeout" {
+						bad = true
+						c.Bad("C13.5", an.Short(fn)+":write(*Task.Timeout)", st.Pos(), "%s writes through the pointer held in Task.Timeout of %s: the duration is shared by the task and every copy of it, so the task's configured timeout is replaced for all its later uses (another stage, a direct run, a watcher)", an.Short(fn), an.Prov(fa.X))
+					}
+				}
+			})
+		}
+		if !bad {
+			c.OK("C13.5", "module:write(*Task.Timeout)", token.NoPos, "no store writes through a Task.Timeout pointer (%d stores looked at)", n)
+		}
+	}
 	checkRunTable(c, "C13.3", map[string]bool{"hooks": true})
 
 	// C13.4
@@ -340,6 +370,21 @@ func decoding(c *an.Ctx, rule string) {
 			for _, src := range p.DeepSources(st.Val, 3, false) {
 				if strings.Contains(an.FieldProv(src), "StringToTimeDurationHookFunc") {
 					found = true
+				}
+				// a hook composed once into a package variable that nothing reassigns
+				if u, ok := src.(*ssa.UnOp); ok && u.Op == token.MUL {
+					if g, ok := u.X.(*ssa.Global); ok {
+						if iv := globalInitValue(p, g); iv != nil {
+							if strings.Contains(an.FieldProv(iv), "StringToTimeDurationHookFunc") {
+								found = true
+							}
+							for _, s2 := range p.DeepSources(iv, 3, false) {
+								if strings.Contains(an.FieldProv(s2), "StringToTimeDurationHookFunc") {
+									found = true
+								}
+							}
+						}
+					}
 				}
 			}
 			if !found {
